@@ -10,6 +10,7 @@ import (
 	"os"
 	"runtime/debug"
 	"sort"
+	"strconv"
 	"strings"
 	"testing"
 	"testing/synctest"
@@ -129,6 +130,14 @@ type RunResult struct {
 	MinCandidates int  `json:"min_candidates,omitempty"`
 	Unminimised   bool `json:"unminimised,omitempty"`
 }
+
+var debugSpinAt = func() int {
+	n, err := strconv.Atoi(os.Getenv("VERIF_DEBUG_SPIN_AT"))
+	if err != nil {
+		return -1
+	}
+	return n
+}()
 
 // DebugAfterStep is a development hook (nil in checks).
 var DebugAfterStep func(rc *RunCtx, i int)
@@ -273,6 +282,9 @@ func runInBubble(p *Profile, o RunOpts, res *RunResult) {
 			st = p.Next(rc)
 			if st == nil {
 				break
+			}
+			if debugSpinAt >= 0 && CurrentIndex == debugSpinAt && i == 3 {
+				st = &Step{Op: "spin"}
 			}
 		}
 		rc.Trace = append(rc.Trace, *st)
